@@ -25,4 +25,12 @@ theorem C13_gen_copyDuplicates : Generated.configCopyDuplicates = some (true, tr
     with: the per-request one on the path of a validated entry, the server's for body-level and validation faults. -/
 theorem C13_gen_replyConfigSites : Generated.replyConfigSites = some replySites := by decide
 
+/-- Every server class that is constructed with a configuration keeps THAT object in `self.json_config` — directly or through
+    the base constructor it forwards it to (positional or keyword): the "server configuration" of the model is the one the
+    caller configured, for the dispatcher, the CGI handler, the socket server and the pooled server alike
+    (tools/extractors/jsonclass3.py `config_sinks`; the classes of jsonrpc.py are C08's). -/
+theorem C13_gen_configSinks :
+    Generated.configSinks.map (fun sinks => (sinks.filter (fun s => s.1 == "SimpleJSONRPCServer")).map (fun s => s.2))
+      = some serverConfigSinks := by decide
+
 end JRV.Props
